@@ -42,6 +42,10 @@ package replace
 //@ fun isDoc(sp any) bool = (sp is *spec.Swagger && sp.(*spec.Swagger) != nil) || (sp is *spec.Schema && sp.(*spec.Schema) != nil)
 //@ axiom navParent: forall sp any :: forall p string :: resolves(sp, p) ==> holds(objAt(sp, path.Dir(p)), jsonpointer.Unescape(path.Base(p)))
 
+// (maps: the decoded last token is a key of the parent map, so assigning that entry neither adds nor removes a key)
+//@ axiom holdsDefsKey: forall c any :: forall e string :: holds(c, e) && c is spec.Definitions ==> e in dom(c.(spec.Definitions))
+//@ axiom holdsSchemaMapKey: forall c any :: forall e string :: holds(c, e) && c is map[string]spec.Schema ==> e in dom(c.(map[string]spec.Schema))
+//@ axiom holdsPropsKey: forall c any :: forall e string :: holds(c, e) && c is spec.SchemaProperties ==> e in dom(c.(spec.SchemaProperties))
 //@ axiom holdsDefs: forall c any :: forall e string :: holds(c, e) && c is spec.Definitions ==> c.(spec.Definitions) != nil
 //@ axiom holdsSchemaMap: forall c any :: forall e string :: holds(c, e) && c is map[string]spec.Schema ==> c.(map[string]spec.Schema) != nil
 //@ axiom holdsProps: forall c any :: forall e string :: holds(c, e) && c is spec.SchemaProperties ==> c.(spec.SchemaProperties) != nil
@@ -71,23 +75,27 @@ package replace
 //@ func UpdateRef(sp, key, ref)
 //@   aspect safe
 //@   requires len(key) >= 1 && isDoc(sp)
-//@   modifies heaps DOC, ghost failed
+//@   modifies heaps DOCW, ghost failed
 //@   ensures result == nil ==> failed == old(failed)
+//@   ensures forall m map[string]spec.Schema :: !fresh(m) ==> dom(m) == old(dom(m))
 //@ func UpdateRefWithSchema(sp, key, sch)
 //@   aspect safe
 //@   requires len(key) >= 1 && sp != nil && sch != nil
-//@   modifies heaps DOC, ghost failed
+//@   modifies heaps DOCW, ghost failed
 //@   ensures result == nil ==> failed == old(failed)
+//@   ensures forall m map[string]spec.Schema :: !fresh(m) ==> dom(m) == old(dom(m))
 //@ func RewriteSchemaToRef(sp, key, ref)
 //@   aspect safe
 //@   requires len(key) >= 1 && sp != nil
-//@   modifies heaps DOC, heap any, ghost failed
+//@   modifies heaps DOCW, heap any, ghost failed
 //@   ensures result == nil ==> failed == old(failed)
+//@   ensures forall m map[string]spec.Schema :: !fresh(m) ==> dom(m) == old(dom(m))
 //@ func rewriteParentRef(sp, key, ref)
 //@   aspect safe
 //@   requires len(key) >= 1 && sp != nil && keyOK(box(sp), key)
-//@   modifies heaps DOC, heap any, ghost failed
+//@   modifies heaps DOCW, heap any, ghost failed
 //@   ensures result == nil ==> failed == old(failed)
+//@   ensures forall m map[string]spec.Schema :: !fresh(m) ==> dom(m) == old(dom(m))
 //@ func DeepestRef(sp, opts, ref)
 //@   aspect safe
 //@   requires sp != nil
